@@ -29,7 +29,7 @@ ASSUMPTIONS = [
     'by_id: other-axis vectors that are all-zero among the kept ids may be '
     'dropped (the implementation filters them; the statement is silent)',
 ]
-REQUIRED = ['without_replacement', 'with_replacement', 'by_id',
+REQUIRED = ['second_call_after_inplace_edit', 'without_replacement', 'with_replacement', 'by_id',
             'axis_observation', 'axis_sample', 'vectors_below_n_dropped',
             'seed_reproducibility_checked', 'seed_zero_checked',
             'stat_draws', 'layout_csc_seen']
@@ -237,6 +237,23 @@ def run_invariants(ctx, index):
         if seed == 0:
             ctx.count('seed_zero_checked')
         oracles.unchanged(t, before, 'C12/input-modified', desc)
+    if mode != 'by_id' and index % 4 == 0:
+        # state left behind by the first call must not leak into a later
+        # one: edit the table in place (along either axis), draw again
+        ax2 = r.choice(['sample', 'observation'])
+        g = r.choice([lambda v, i, m: np.floor(v / 4), lambda v, i, m: v * 3,
+                      lambda v, i, m: np.where(v > 2, v, 0.)])
+        t.transform(g, axis=ax2, inplace=True)
+        spec2 = spec.copy()
+        spec2.D = np.array(snap.snap(t).D)
+        exp = g(spec.D.copy(), None, None)
+        if not snap.bits_equal(spec2.D, exp):
+            raise Violation('C12/harness-edit', 'in-place transform gave an '
+                            'unexpected table; case=%r' % (desc,))
+        res4 = t.subsample(n, **kw)
+        d2 = dict(desc, after_inplace_edit=True)
+        check_counts(ctx, spec2, res4, n, axis, mode == 'with', d2)
+        ctx.count('second_call_after_inplace_edit')
     tots = V.sum(axis=1)
     ctx.case(desc, bool((np.any(tots > n) and np.any(tots < n)) or
                         axis == 'observation' or mode != 'without'))
